@@ -63,6 +63,8 @@ func secBlur(r *vlib.Run) {
 		nb := in.im.neighbors()
 		extra := map[string]interface{}{"rates": rates}
 		var out []vlib.Tri
+		directed := false
+		var altNb [][][]int
 		if rng.Intn(3) == 0 {
 			api = "model3d.Mesh.BlurFiltered"
 			// symmetric pure predicate: both ends on the same side of a plane
@@ -70,6 +72,20 @@ func secBlur(r *vlib.Run) {
 			d := n.Dot(in.im.pts[rng.Intn(len(in.im.pts))])
 			pred := func(a, b C3) bool { return (n.Dot(a) > d) == (n.Dot(b) > d) }
 			extra["plane"] = fmt.Sprintf("n=%s d=%x", hex3(n), d)
+			if rng.Intn(3) == 0 {
+				// a directed predicate: f(a,b) != f(b,a) (e.g. "only vertices above the plane take
+				// part", judged on the first argument). The documentation does not say which end is
+				// which, so any reading that is applied consistently to all pairs is accepted.
+				directed = true
+				if rng.Intn(2) == 0 {
+					pred = func(a, b C3) bool { return n.Dot(a) > d }
+					extra["predicate"] = "first argument above the plane"
+				} else {
+					pred = func(a, b C3) bool { return n.Dot(a) > n.Dot(b) }
+					extra["predicate"] = "first argument higher than the second along n"
+				}
+				c.Count("blur.directed_predicates", 1)
+			}
 			badArg := false
 			out = vlib.Tris(in.mesh.BlurFiltered(func(a, b C3) bool {
 				if _, ok := in.im.vid[nz(a)]; !ok {
@@ -82,6 +98,25 @@ func secBlur(r *vlib.Run) {
 			}, rates...))
 			if badArg {
 				c.Violation(api+"/filter-argument", "the neighbour filter was called with a coordinate that is not an initial vertex", in.witness(extra))
+			}
+			if directed {
+				readings := []func(a, b C3) bool{
+					pred,
+					func(a, b C3) bool { return pred(b, a) },
+					func(a, b C3) bool { return pred(a, b) || pred(b, a) },
+					func(a, b C3) bool { return pred(a, b) && pred(b, a) },
+				}
+				for _, rd := range readings[1:] {
+					alt := make([][]int, len(nb))
+					for i := range nb {
+						for _, j := range nb[i] {
+							if rd(in.im.pts[i], in.im.pts[j]) {
+								alt[i] = append(alt[i], j)
+							}
+						}
+					}
+					altNb = append(altNb, alt)
+				}
 			}
 			for i := range nb {
 				var keep []int
@@ -115,6 +150,15 @@ func secBlur(r *vlib.Run) {
 		want := blurReference(in.im, nb, rates)
 		tol := 1e-11 * (in.maxA + in.size) * float64(len(rates))
 		res := matchFaces(want, in.im.faces, out, tol)
+		for _, alt := range altNb {
+			if res.ok || res.undecided {
+				break
+			}
+			if r2 := matchFaces(blurReference(in.im, alt, rates), in.im.faces, out, tol); r2.ok {
+				res = r2
+				c.Count("blur.directed_predicates_matched_under_another_consistent_reading", 1)
+			}
+		}
 		clause := "/rule"
 		if len(rates) == 1 && rates[0] == 1 {
 			clause = "/rate-1-neighbour-mean"
